@@ -88,8 +88,35 @@ def eval_str(expr, env):
         return None
 
 
+def shared_statement_object(att, p):
+    """the statement the cursor is in is one Python object that occurs more than once in the
+    procedure (e.g. both branches of `specialize`'s if/else): the effect analysis finds its context
+    by object identity and takes that of the FIRST occurrence"""
+    from stream import locate
+    LoopIR, T = _mods()
+    path = att["path"]
+    # longest prefix of the path that addresses a statement
+    k = len(path)
+    while k > 0 and path[k - 1][0] not in ("body", "orelse"):
+        k -= 1
+    if k == 0:
+        return False
+    ir = p._loopir_proc
+    for j in range(k, 0, -1):
+        node = locate(p, path[:j])._impl._node
+        n = sum(1 for r in ir.body for x in walk(r) if x is node)
+        if n > 1:
+            return True
+    return False
+
+
 def classify_mismatch(att, p, p2, bad, pj=None, inp=None):
     op = att["op"]
+    try:
+        if shared_statement_object(att, p):
+            return "effect-analysis:context-of-first-occurrence-of-shared-statement-object"
+    except Exception:
+        pass
     try:
         sub = _situation(att, p, p2, bad, ctrl_env(pj, inp) if pj and inp else {})
     except Exception as e:  # classification must never hide a mismatch
